@@ -46,7 +46,7 @@ ASSUMPTIONS = [
     "reflect reports the compiler's layout (checked against unsafe.Offsetof chains and &selector on every shape of the run)",
 ]
 
-_prelude = oc.Prelude(globals())
+_prelude = oc.Prelude(globals(), with_arena=False)
 
 
 def run_impl(ctx, tier=None, count=None):
